@@ -363,6 +363,7 @@ class Scheduler:
         self._win_targets = frozenset(strategy.get('targets', ())) if self.kind == 'window' else frozenset()
         self.window_parks = 0
         self._park_in = {}
+        self._park_site = {}          # task -> [frame that holds the window, events seen] ('own' flavour of the offset)
 
     # -------------------------------------------------------------- set-up
     def spawn(self, ops, interrupts=None, step_caps=None):
@@ -477,9 +478,21 @@ class Scheduler:
                 hit = False
                 if self._park_in.get(task.idx) is not None:
                     # the task passed its window `offset` lines ago: it is now somewhere INSIDE the initialiser it decided to run
-                    self._park_in[task.idx] -= 1
+                    site = self._park_site.get(task.idx)
+                    if site is None:
+                        self._park_in[task.idx] -= 1
+                    else:
+                        # 'own' flavour: only the lines of the frame that holds the window and of the function it calls directly
+                        # (the initialiser's OWN statements) count, so that a small offset reaches the points between two
+                        # publications at the end of a long initialiser (whatever it calls in between runs through)
+                        site[1] += 1
+                        if frame is not None and (frame is site[0] or frame.f_back is site[0]):
+                            self._park_in[task.idx] -= 1
+                        elif site[1] > 200000:
+                            self._park_in[task.idx] = 0          # (the window's frame is long gone)
                     if self._park_in[task.idx] <= 0:
                         del self._park_in[task.idx]
+                        self._park_site.pop(task.idx, None)
                         hit = True
                 elif frame is not None and (frame.f_code.co_filename[len(self.lark_root):], frame.f_lineno) in self._window_sites:
                     self._win_n += 1
@@ -487,6 +500,8 @@ class Scheduler:
                         off = self.strategy.get('offset', 0)
                         if off > 0:
                             self._park_in[task.idx] = off
+                            if self.strategy.get('own'):
+                                self._park_site[task.idx] = [frame, 0]
                         else:
                             hit = True
                 if not hit and self.rng.random() >= self.strategy.get('p2', 0.002):
